@@ -307,6 +307,12 @@ def body(ctx):
         for k, v in comment.items():
             if c2.get(k) != v:
                 ctx.finding("e2e/comment_not_returned", "a supplied header comment does not come back unchanged", {**case, "key": k, "got": c2.get(k)})
+        # nothing but the caller's comments, the counts and the system information comes back: a key supplied to an
+        # EARLIER call in this process (or any other stray key) is a header comment the caller did not supply for this file
+        stray = sorted(k for k in c2 if k not in comment and k not in RESERVED and not re.fullmatch(r"comment_\d+", k))
+        if stray:
+            ctx.finding("e2e/comment_not_supplied", "the comment dictionary holds keys that were not supplied for this file",
+                        {**case, "stray_keys": stray[:5], "values": [c2[k] for k in stray[:5]]})
         if c2.get("nrow") != str(nrow) or c2.get("ncol") != str(len(colnames)):
             ctx.finding("e2e/nrow_ncol", "recorded nrow/ncol are not returned", {**case, "got": [c2.get("nrow"), c2.get("ncol")]})
 
